@@ -116,6 +116,9 @@ type Sched struct {
 	inMon   bool
 	// SkipTmpWrites: writes into *.reftmp table bodies are not yield points
 	SkipTmpWrites bool
+	// ClockStep: how far a process's virtual clock advances per reading (default 100us);
+	// a large step models a slow machine / file system for the code's own deadlines
+	ClockStep time.Duration
 	// HookReads: ReadAt on table files is a hooked operation (fault-injection runs)
 	HookReads     bool
 	MaxSteps      int
@@ -375,7 +378,11 @@ func VirtualNow() (time.Time, bool) {
 	if s == nil || s.cur == nil || s.inMon {
 		return time.Time{}, false
 	}
-	s.cur.TimeOff += 100 * time.Microsecond
+	step := s.ClockStep
+	if step <= 0 {
+		step = 100 * time.Microsecond
+	}
+	s.cur.TimeOff += step
 	return virtualBase.Add(s.cur.TimeOff), true
 }
 
